@@ -89,18 +89,63 @@ theorem absRes_recvRes (r : Role) (regs : Regs) (v : Int) (text : Bytes) (req : 
   rename_i n
   cases n <;> cases r <;> simp_all [notifBytes, absExc, RecvShape]
 
+theorem recvPy_shape (depth : Nat) (s : Sess) (chunk : Bytes) :
+    (recvPy depth s chunk).1.role = s.role ∧ (recvPy depth s chunk).1.regs = s.regs
+      ∧ RecvShape s.role (recvPy depth s chunk).2 := by
+  obtain ⟨h1, h2, h3⟩ := recv_shape depth s chunk
+  have hf := recvPy_forget depth s chunk
+  have e1 : (recvPy depth s chunk).1.role = (recv depth s chunk).1.role :=
+    show (forgetResidue (recvPy depth s chunk)).1.role = (forgetResidue (recv depth s chunk)).1.role by rw [hf]
+  have e2 : (recvPy depth s chunk).1.regs = (recv depth s chunk).1.regs :=
+    show (forgetResidue (recvPy depth s chunk)).1.regs = (forgetResidue (recv depth s chunk)).1.regs by rw [hf]
+  have e3 : (recvPy depth s chunk).2 = (recv depth s chunk).2 :=
+    show (forgetResidue (recvPy depth s chunk)).2 = (forgetResidue (recv depth s chunk)).2 by rw [hf]
+  exact ⟨e1.trans h1, e2.trans h2, e3 ▸ h3⟩
+
+/-- `LDAPClient.receive` with `unpack_ldap_message := decMsg regs depth`, abstraction form -/
 theorem client_receive_abs (regs : Regs) (depth : Nat) (st : St) (chunk : Bytes) :
-    absRes .client regs .msgs (LDAPClient_receive st chunk (unpackOracle regs depth st.incoming_buffer chunk))
-      = recv depth (absS .client regs st) chunk := by
+    absRes .client regs .msgs (LDAPClient_receive st chunk (decMsg regs depth))
+      = recvPy depth (absS .client regs st) chunk := by
   rw [client_receive_eq]
-  obtain ⟨h1, h2, h3⟩ := recv_shape depth (absS .client regs st) chunk
+  obtain ⟨h1, h2, h3⟩ := recvPy_shape depth (absS .client regs st) chunk
   exact absRes_recvRes _ _ _ _ _ _ h1 h2 h3
 
 theorem server_receive_abs (regs : Regs) (depth : Nat) (st : St) (chunk text : Bytes) :
-    absRes .server regs .msgs (LDAPServer_receive st chunk (unpackOracle regs depth st.incoming_buffer chunk) text)
-      = recv depth (absS .server regs st) chunk := by
+    absRes .server regs .msgs (LDAPServer_receive st chunk (decMsg regs depth) text)
+      = recvPy depth (absS .server regs st) chunk := by
   rw [server_receive_eq]
-  obtain ⟨h1, h2, h3⟩ := recv_shape depth (absS .server regs st) chunk
+  obtain ⟨h1, h2, h3⟩ := recvPy_shape depth (absS .server regs st) chunk
   exact absRes_recvRes _ _ _ _ _ _ h1 h2 h3
+
+/-- the hypothesis under which code and model agree on the residue too: the buffer was non-empty before the
+    call, or the unpacking does not raise -/
+def ResidueAgrees (regs : Regs) (depth : Nat) (st : St) (chunk : Bytes) : Prop :=
+  st.incoming_buffer ≠ [] ∨
+    ∃ p, parseLoop regs depth (st.incoming_buffer ++ chunk).length (st.incoming_buffer ++ chunk) = .ok p
+
+theorem client_receive_abs_model (regs : Regs) (depth : Nat) (st : St) (chunk : Bytes)
+    (h : ResidueAgrees regs depth st chunk) :
+    absRes .client regs .msgs (LDAPClient_receive st chunk (decMsg regs depth))
+      = recv depth (absS .client regs st) chunk := by
+  rw [client_receive_abs]
+  exact recvPy_eq_recv depth (absS .client regs st) chunk h
+
+theorem server_receive_abs_model (regs : Regs) (depth : Nat) (st : St) (chunk text : Bytes)
+    (h : ResidueAgrees regs depth st chunk) :
+    absRes .server regs .msgs (LDAPServer_receive st chunk (decMsg regs depth) text)
+      = recv depth (absS .server regs st) chunk := by
+  rw [server_receive_abs]
+  exact recvPy_eq_recv depth (absS .server regs st) chunk h
+
+/-- without any hypothesis: everything but the residue -/
+theorem client_receive_abs_forget (regs : Regs) (depth : Nat) (st : St) (chunk : Bytes) :
+    forgetResidue (absRes .client regs .msgs (LDAPClient_receive st chunk (decMsg regs depth)))
+      = forgetResidue (recv depth (absS .client regs st) chunk) := by
+  rw [client_receive_abs]; exact recvPy_forget _ _ _
+
+theorem server_receive_abs_forget (regs : Regs) (depth : Nat) (st : St) (chunk text : Bytes) :
+    forgetResidue (absRes .server regs .msgs (LDAPServer_receive st chunk (decMsg regs depth) text))
+      = forgetResidue (recv depth (absS .server regs st) chunk) := by
+  rw [server_receive_abs]; exact recvPy_forget _ _ _
 
 end Verif.Proofs.SessionGen
